@@ -52,6 +52,8 @@ func c02mType(r *rand.Rand, depth int) reflect.Type {
 	}
 }
 
+var c02mNoOmitempty bool // the typed encoding model has no omitempty: its cases use structs without it
+
 func c02mStruct(r *rand.Rand, depth int) reflect.Type {
 	n := 1 + r.Intn(5)
 	var fs []reflect.StructField
@@ -61,7 +63,11 @@ func c02mStruct(r *rand.Rand, depth int) reflect.Type {
 		case 0:
 			f.Tag = reflect.StructTag(fmt.Sprintf(`json:"n%d"`, i))
 		case 1:
-			f.Tag = reflect.StructTag(`json:"` + []string{"a&b", "<x>", "é", "with space", "UPPER", "id", "name", "kK"}[i%8] + `,omitempty"`)
+			opt := ",omitempty"
+			if c02mNoOmitempty {
+				opt = ""
+			}
+			f.Tag = reflect.StructTag(`json:"` + []string{"a&b", "<x>", "é", "with space", "UPPER", "id", "name", "kK"}[i%8] + opt + `"`)
 		}
 		fs = append(fs, f)
 	}
